@@ -405,6 +405,7 @@ def run(ctx, col: Collector):
 
         def is_free(g: G) -> bool:
             if g.kind == 'regex' and gt.comment_forms(g) is not None:
+                comment_regexes.add(g.uid)
                 return False       # a comment token written as a regular expression: judged below
             if g.kind in ('skipto', 'regex'):
                 return True
@@ -414,6 +415,7 @@ def run(ctx, col: Collector):
                 return bool((g.a['init'] | g.a['body']) & WS)
             return False
         found: Dict[int, Tuple[G, bool]] = {}
+        comment_regexes: Set[int] = set()
         memo: Set[Tuple[int, bool, bool]] = set()
 
         def rec(g: G, opened: bool, closed: bool, depth: int = 0):
@@ -439,7 +441,8 @@ def run(ctx, col: Collector):
                 rec(k, opened, closed, depth + 1)
         for flag in (False, True):
             rec(gm.configs[flag], False, False)
-        col.floor('C07-freetext', 'unbounded matchers', len(found), 4)
+        # (a comment token written as one regular expression stands for the two unbounded matchers of the hand-written form)
+        col.floor('C07-freetext', 'unbounded matchers', len(found) + 2 * len(comment_regexes), 4)
         for g, ok in found.values():
             cons = f'{g.module.split(".")[-1]}:{g.kind}@{g.line}'
             col.check(ok, 'C07-freetext', cons, f'{g.kind} is enclosed by delimiter literals on every route from the top-level syntax',
